@@ -16,7 +16,9 @@ double-SHA256 it is the usual cryptographic assumption and is *not* claimed here
   `idx`, to the merkle root of `hs` **is** `hs[idx]` with exactly the branch `branch_and_root`
   returns: the server cannot be made to "prove" another leaf at that position, and the branch is
   unique;
-* `bar_binds_unique` — hence no two different leaves have verifying proofs for one position.
+* `bar_binds_unique` — hence no two different leaves have verifying proofs for one position;
+* `rfpTscLoop_inj_leaf`, `bar_binds_tsc` — in the TSC format (`*` = duplicate of the running hash) the
+  branch is not unique by design (a `*` and an explicit copy fold alike) but the leaf still binds.
 
 Nothing in `EV/Model/Merkle.lean` or `EV/Props/C12.lean` is touched.
 -/
@@ -88,6 +90,61 @@ theorem bar_binds_unique (hinj : Collisionless H) (hs : List Node) (idx : Nat) (
     x = y := by
   rw [(bar_binds H hinj hs idx h x bx hlx hvx).1, (bar_binds H hinj hs idx h y by' hly hvy).1]
 
+/-- **C12 (binding, TSC loop).**  In the TSC format a `*` and an explicit copy of the running hash
+fold alike, so the *branch* is not unique by design; the **leaf** still is: for a collision-free
+hash the client's TSC verification loop is injective in the leaf (same index, same length). -/
+theorem rfpTscLoop_inj_leaf (hinj : Collisionless H) :
+    ∀ (br br' : List (Elt Node)) (x y : Node) (i : Int), br.length = br'.length →
+      (rfpTscLoop H x br i).1 = (rfpTscLoop H y br' i).1 → x = y
+  | [], [], x, y, i, _, h => by simpa [rfpTscLoop] using h
+  | .star :: r, .star :: r', x, y, i, hl, h => by
+      simp only [rfpTscLoop] at h
+      have h1 := rfpTscLoop_inj_leaf hinj r r' _ _ _ (by simpa using hl) h
+      exact (hinj _ _ _ _ h1).1
+  | .star :: r, .node e' :: r', x, y, i, hl, h => by
+      simp only [rfpTscLoop] at h
+      have h1 := rfpTscLoop_inj_leaf hinj r r' _ _ _ (by simpa using hl) h
+      by_cases hi : i % 2 = 1
+      · simp only [hi, if_true] at h1; exact (hinj _ _ _ _ h1).2
+      · simp only [hi, if_false] at h1; exact (hinj _ _ _ _ h1).1
+  | .node e :: r, .star :: r', x, y, i, hl, h => by
+      simp only [rfpTscLoop] at h
+      have h1 := rfpTscLoop_inj_leaf hinj r r' _ _ _ (by simpa using hl) h
+      by_cases hi : i % 2 = 1
+      · simp only [hi, if_true] at h1; exact (hinj _ _ _ _ h1).2
+      · simp only [hi, if_false] at h1; exact (hinj _ _ _ _ h1).1
+  | .node e :: r, .node e' :: r', x, y, i, hl, h => by
+      simp only [rfpTscLoop] at h
+      have h1 := rfpTscLoop_inj_leaf hinj r r' _ _ _ (by simpa using hl) h
+      by_cases hi : i % 2 = 1
+      · simp only [hi, if_true] at h1; exact (hinj _ _ _ _ h1).2
+      · simp only [hi, if_false] at h1; exact (hinj _ _ _ _ h1).1
+  | [], _ :: _, _, _, _, hl, _ => by simp at hl
+  | _ :: _, [], _, _, _, hl, _ => by simp at hl
+
+/-- **C12 (binding, TSC).**  Collision-free `H`, `idx < len(hs)`: any leaf `x` with *any* TSC
+branch of the natural length that the client folds to the merkle root of `hs` at position `idx`
+is `hs[idx]`. -/
+theorem bar_binds_tsc (hinj : Collisionless H) (hs : List Node) (idx : Nat) (h : idx < hs.length)
+    (x : Node) (br : List (Elt Node)) (hlen : br.length = Nat.clog 2 hs.length)
+    (hv : rootFromProofTsc H x br idx =
+      .ok (merkleRoot H hs (List.ne_nil_of_length_pos (by omega)))) :
+    x = hs[idx] := by
+  obtain ⟨nodes, brT, r, hb, hbT, hl, _, hf⟩ := tsc_spec H hs idx h
+  obtain ⟨br0, hroot⟩ := bar_root H hs idx true h
+  have hr : r = merkleRoot H hs (List.ne_nil_of_length_pos (by omega)) := by
+    rw [hbT] at hroot; cases hroot; rfl
+  have hnl : brT.length = Nat.clog 2 hs.length := bar_length H hs idx true _ _ hbT
+  subst hr
+  unfold rootFromProofTsc at hv hf
+  split at hv
+  · cases hv
+  · split at hf
+    · cases hf
+    · have a := Except.ok.inj hv
+      have b := Except.ok.inj hf
+      exact rfpTscLoop_inj_leaf H hinj br brT x hs[idx] idx (by omega) (by rw [a, b])
+
 /-! ## non-vacuity -/
 
 section Examples
@@ -107,6 +164,10 @@ example :
 /-- without collision-freeness the conclusion fails: a constant hash accepts any leaf -/
 example : rootFromProof (fun _ _ : Nat => 0) 7 [5] 0 = rootFromProof (fun _ _ : Nat => 0) 8 [5] 0 := by
   decide
+
+/-- TSC: the branch is not unique (`*` vs. an explicit copy of the running hash), the leaf is -/
+example : rootFromProofTsc T.n (l 2) [.star, .node (n (l 0) (l 1))] 2 =
+    rootFromProofTsc T.n (l 2) [.node (l 2), .node (n (l 0) (l 1))] 2 := by decide
 
 end Examples
 
